@@ -19,7 +19,7 @@ import tempfile
 
 import fw
 
-LEAN_PROPS = ["NmlVerif.Props.C14"]
+LEAN_PROPS = ["NmlVerif.Props.C14", "NmlVerif.Props.C14Gen"]
 LEAN_EXTRA = ["NmlVerif.Gen.Groups"]
 LEVEL = "proof"
 RULE = ("random cells: 0-6 groups (thorough 0-9) drawn from a pool of ids that natural sort orders differently from "
